@@ -61,6 +61,24 @@ func genMux(seed uint64, n int, maxOps int, demux bool, emit func(interface{})) 
 			emit(sc)
 			continue
 		}
+		if s == 25 {
+			// a stream removed, then 260 other streams added and removed, then the first one added again: it carries on where it stopped
+			sc.Period = 40
+			sc.Ops = append(sc.Ops, muxOp{Op: "add", PID: 0x100, ST: 27, DK: "none"}, muxOp{Op: "setpcr", PID: 0x100}, muxOp{Op: "add", PID: 0x200, ST: 15, DK: "none"}, muxOp{Op: "tables"})
+			for i := 0; i < 3; i++ {
+				sc.Ops = append(sc.Ops, muxOp{Op: "data", PID: 0x200, Len: r.pick(100, 300, 500), Hdr: "pts", AF: "none"})
+			}
+			sc.Ops = append(sc.Ops, muxOp{Op: "remove", PID: 0x200})
+			for i := 0; i < 260; i++ {
+				sc.Ops = append(sc.Ops, muxOp{Op: "add", PID: 0x300 + i, ST: 15, DK: "none"}, muxOp{Op: "remove", PID: 0x300 + i})
+			}
+			sc.Ops = append(sc.Ops, muxOp{Op: "add", PID: 0x200, ST: 15, DK: "none"}, muxOp{Op: "tables"})
+			for i := 0; i < 4; i++ {
+				sc.Ops = append(sc.Ops, muxOp{Op: "data", PID: []int{0x200, 0x100}[i%2], Len: r.pick(100, 300), Hdr: "pts", AF: "none"})
+			}
+			emit(sc)
+			continue
+		}
 		if s%12 == 1 {
 			genMuxSharedHdr(r, &sc)
 			emit(sc)
@@ -246,6 +264,9 @@ func genMuxFault(seed uint64, n int, maxOps int, emit func(interface{})) {
 	for s := 0; s < n; s++ {
 		hdr := muxHdrClasses[r.intn(len(muxHdrClasses))]
 		af := r.pickS("none", "none", "pcr", "rai", "rich", "priv10")
+		if s%6 == 4 {
+			af = "bigrai" // the adaptation field leaves no room for the PES header: an adaptation-only packet goes first
+		}
 		c1 := 184 - afTotalLen(af) - pesHeaderLen(hdr)
 		stuff := []int{0, 1, 2, 3, 50}[s%5]
 		base := muxScenario{Kind: "mux", Seed: r.u64() >> 1, Period: r.pick(1, 2, 40)}
@@ -279,6 +300,30 @@ func genMuxFault(seed uint64, n int, maxOps int, emit func(interface{})) {
 			base.Ops = append(base.Ops, muxOp{Op: "data", PID: 256, Len: r.pick(1, 100, 184, 300), Hdr: "pts", AF: "none"})
 		}
 		W := countWrites(base)
+		if s%3 == 0 {
+			// the context handed to NewMuxer is cancelled during one of the Write calls (every 7th position)
+			for at := s % 7; at < W; at += 7 {
+				sc := base
+				sc.SID = fmt.Sprintf("mf-%d-%d-%d-cancel", seed, s, at)
+				sc.Fault = &muxFault{At: at, Mode: "cancel"}
+				emit(sc)
+			}
+			// the writer reports a failure (full count) on two of the PAT packets of a table-heavy history
+			tb := muxScenario{Kind: "mux", Seed: r.u64() >> 1, Period: r.pick(1, 2, 40)}
+			tb.Ops = []muxOp{{Op: "add", PID: 256, ST: 15, DK: "none"}, {Op: "setpcr", PID: 256}}
+			for i := 0; i < 7; i++ {
+				tb.Ops = append(tb.Ops, muxOp{Op: "tables"})
+				if i%3 == 1 {
+					tb.Ops = append(tb.Ops, muxOp{Op: "data", PID: 256, Len: r.pick(1, 100, 300), Hdr: "pts", AF: r.pickS("none", "rai")})
+				}
+			}
+			for _, pr := range [][2]int{{2, 3}, {2, 4}, {3, 6}, {1, 2}} {
+				sc := tb
+				sc.SID = fmt.Sprintf("mf-%d-%d-%d-%d-pattwice", seed, s, pr[0], pr[1])
+				sc.Fault = &muxFault{At: pr[0], At2: pr[1], Mode: "pattwice"}
+				emit(sc)
+			}
+		}
 		for at := 0; at < W; at++ {
 			modes := []string{"once", "perm"}
 			if at%3 == s%3 { // every third position also with the failure reported together with the full count
